@@ -269,6 +269,11 @@ def inject(text, kind, k):
         return text + '\n#_tinj: /"q"\n#zz_inj: /#_tinj/"r"\n'
     if kind == 'cyclic-reference':
         return text + '\n#zz_a: /"q"/#zz_b\n#zz_b: /#zz_a/"r"\n'
+    if kind == 'cyclic-reference-in-redefinition':
+        # the reference that closes the cycle sits in a definition that is neither the first nor the last of its rule
+        return text + '\n#zz_a: "y"\n#zz_a: #zz_a/"x"\n#zz_a: "z"\n'
+    if kind == 'cyclic-reference-first-definition':
+        return text + '\n#zz_a: #zz_b/"x"\n#zz_a: "y"\n#zz_b: #zz_a/"z"\n'
     if kind == 'self-reference':
         return text + '\n#zz_a: /"q"/#zz_a\n'
     if kind == 'cyclic-signing':
@@ -299,7 +304,7 @@ def inject(text, kind, k):
 
 
 KINDS = ['undefined-rule', 'temporary-rule-ref', 'cyclic-reference', 'self-reference', 'cyclic-signing', 'self-signing',
-         'cyclic-signing-shared-key',
+         'cyclic-signing-shared-key', 'cyclic-reference-in-redefinition', 'cyclic-reference-first-definition',
          'undefined-signer', 'unknown-pattern-constrained', 'unknown-pattern-option', 'unknown-pattern-fn-arg',
          'temporary-pattern-option', 'temporary-pattern-fn-arg']
 
@@ -317,6 +322,18 @@ def h_text(eng, case):
             eng.reach('injection-not-applicable')
             return
     err = None
+    if kind == 'compiles':
+        # a schema of the catalogue (error free by construction) must get through the compiler; whether the model then
+        # passes the loader depends on node-level signing cycles, which the statement excludes
+        try:
+            compile_lvs(text)
+        except Exception as e:
+            err = exc_sig(e)
+        eng.check(err is None, 'error-free-schema-accepted', {'err': err, 'schema': case.get('schema')},
+                  sig='compiler-rejects-error-free:%s' % err)
+        eng.observe('err', err)
+        eng.reach('end')
+        return
     try:
         model = compile_lvs(bad)
         Checker(model, user_fns())
@@ -342,6 +359,8 @@ def cases(tier, seed):
     cs = []
     for key, text in sorted(cat.items()):
         st = load_schema(key, text)
+        if not key.startswith('test') and st[0] != 'ref-rejects':
+            cs.append(('text', {'text': text, 'kind': 'compiles', 'schema': key}))
         if st[0] != 'ok':
             continue
         ref, model = st[1], st[2]
